@@ -9,6 +9,25 @@ package arp
 // C07: whatever bytes arrive, handling an ARP frame does not panic (no out-of-range index,
 // no nil dereference), given an initialised endpoint. The link endpoint and the link address
 // cache are reached through interfaces: their effect is unknown (everything may change).
+//
+// C12: an ARP request is answered only if the link address cache says the target protocol
+// address is one of ours (the address asked about is exactly the request's target field); the
+// reply is one ARP frame: op = reply, sender hardware address = the route's local link
+// address, sender protocol address = the address asked for, target hardware and protocol
+// address = the requester's; nothing else is sent. The sender's mapping is learned (exactly one
+// AddLinkAddress with the sender's protocol and hardware address) from a reply, and from a
+// request only when it was answered; an invalid frame does nothing.
+//@ define arpReq(vv) = old(vv.views[0])
 //@ func (*endpoint).HandlePacket props C07 C12
-//@   requires e != nil && r != nil && e.linkEP != nil && e.linkAddrCache != nil
-//@   modifies everything()
+//@   requires e != nil && r != nil && e.linkEP != nil && e.linkAddrCache != nil && len(r.LocalLinkAddress) == 6
+//@   at_call CheckLocalAddress requires len(addr) == 4 && forall(k, 0, 4, byteat(addr, k) == arpReq(vv)[24 + k]) && protocol == header.IPv4ProtocolNumber
+//@   at_call WritePacket requires ghost(lastLocalCheck) != 0 && protocol == ProtocolNumber && len(hdr.buf) - hdr.usedIdx == header.ARPSize && payload.size == 0
+//@   at_call WritePacket requires be16(hdr.buf, hdr.usedIdx + 6) == uint16(header.ARPReply) && be16(hdr.buf, hdr.usedIdx) == 1 && be16(hdr.buf, hdr.usedIdx + 2) == 0x0800 && hdr.buf[hdr.usedIdx + 4] == 6 && hdr.buf[hdr.usedIdx + 5] == 4
+//@   at_call WritePacket requires forall(k, 0, 6, hdr.buf[hdr.usedIdx + 8 + k] == byteat(r.LocalLinkAddress, k))
+//@   at_call WritePacket requires forall(k, 0, 6, hdr.buf[hdr.usedIdx + 18 + k] == arpReq(vv)[8 + k])
+//@   at_call WritePacket requires forall(k, 0, 4, hdr.buf[hdr.usedIdx + 14 + k] == arpReq(vv)[24 + k])
+//@   at_call WritePacket requires forall(k, 0, 4, hdr.buf[hdr.usedIdx + 24 + k] == arpReq(vv)[14 + k])
+//@   at_call AddLinkAddress requires len(addr) == 4 && len(linkAddr) == 6 && forall(k, 0, 4, byteat(addr, k) == arpReq(vv)[14 + k]) && forall(k, 0, 6, byteat(linkAddr, k) == arpReq(vv)[8 + k])
+//@   ensures ghost(arpSent) - old(ghost(arpSent)) <= 1 && ghost(learned) - old(ghost(learned)) <= 1
+//@   ensures implies(ghost(arpSent) != old(ghost(arpSent)), ghost(learned) == old(ghost(learned)) + 1)
+//@   modifies everything(), modset(ARPGHOSTS)
